@@ -60,3 +60,7 @@ func checkC08(t *testing.T, c Case) *stats.Verdict {
 func TestC08(t *testing.T) {
 	stats.Run(t, stats.Prop[Case]{ID: "C08", Rule: ruleC08, Gen: genFiniteCase, Check: checkC08})
 }
+
+func FuzzC08(f *testing.F) {
+	stats.Fuzz(f, stats.Prop[Case]{ID: "C08", Rule: ruleC08, Gen: genFiniteCase, Check: checkC08})
+}
